@@ -14,6 +14,7 @@ from ..astq import flatten, norm, return_exprs
 from ..ratfun import Normalizer, RF, Poly
 from .libcontract import _field_normalizer
 from .validate import controlling_tests, node_for
+from ..shape import helper_calls, resolve_alias, cmp_canon, conjuncts
 
 
 def _rf_text(text: str, atoms: Dict[str, RF] = None) -> RF:
@@ -239,87 +240,293 @@ def mut_mgf_domain(repo: Repo) -> List[Mutant]:
 
 
 # ------------------------------------------------------------------ C03: indicator of an atom (Lagrange interpolation), power reduction
+def _returns_with_facts(fn_node, c) -> List[Tuple[ast.AST, List[Tuple[ast.AST, bool]], int]]:
+    """(returned expression, facts known when it is returned, line); conditional expressions are split"""
+    out = []
+    for r in walk_no_nested(fn_node):
+        if not (isinstance(r, ast.Return) and r.value is not None):
+            continue
+        facts = []
+        for t, reach in controlling_tests(c, node_for(c, r)):
+            if isinstance(t.ast, ast.expr):
+                facts += conjuncts(t.ast, bool(reach))
+        def split(e, fs):
+            if isinstance(e, ast.IfExp):
+                split(e.body, fs + conjuncts(e.test, True))
+                split(e.orelse, fs + conjuncts(e.test, False))
+            else:
+                out.append((e, fs, r.lineno))
+        split(r.value, facts)
+    return out
+
+
+def _is_const(e, value) -> bool:
+    if isinstance(e, ast.Constant):
+        return e.value == value or e.value == str(value)
+    if isinstance(e, ast.Call) and call_name(e) in ("sympify", "Integer", "Rational") and len(e.args) == 1:
+        return _is_const(e.args[0], value)
+    if isinstance(e, ast.Call) and not e.args:
+        return call_name(e) == {0: "Zero", 1: "One"}.get(value)
+    return False
+
+
 def rule_indicator(repo: Repo) -> List[Ob]:
     obs = []
+    R = "F-indicator"
     rp = "program/condition/atom_cond.py"
     m = repo.function(rp, "Atom.to_arithm")
-    defs = Defs(m.node, m.params()[0])
-    comps = [n for n in walk_no_nested(m.node) if isinstance(n, ast.ListComp) or isinstance(n, ast.GeneratorExp)]
-    ok = False
-    why = "no product over the other values of the type"
-    for cmpn in comps:
-        g = cmpn.generators[0]
-        if not (isinstance(g.target, ast.Name) and "values" in src(g.iter)):
-            continue
-        v = g.target.id
-        var = next((nm for nm, vals in defs.defs.items() if any(is_self_attr(x, "poly1", m.params()[0]) for x in vals if isinstance(x, ast.expr))), None)
-        val = next((nm for nm, vals in defs.defs.items() if any(is_self_attr(x, "poly2", m.params()[0]) for x in vals if isinstance(x, ast.expr))), None)
-        if var is None or val is None:
-            continue
-        try:
-            nz = Normalizer()
-            got = nz(cmpn.elt)
-            want = nz(ast.parse(f"({var} - {v}) / ({val} - {v})").body[0].value)
-            shape = got.equiv(want)
-        except AnalysisError:
-            shape = False
-        filt = len(g.ifs) == 1 and isinstance(g.ifs[0], ast.Compare) and isinstance(g.ifs[0].ops[0], ast.NotEq) and {src(g.ifs[0].left), src(g.ifs[0].comparators[0])} == {v, val}
-        ok = shape and filt
-        why = "indicator of `x == c` is prod over the other values v of (x - v)/(c - v)" if ok else \
-            (f"factor `{src(cmpn.elt)}` is not (x - v)/(c - v)" if not shape else "the product does not skip exactly v == c")
-    # product accumulation starting from 1
-    prod_ok = any(isinstance(n, ast.AugAssign) and isinstance(n.op, ast.Mult) for n in walk_no_nested(m.node)) and \
-        any(isinstance(n, ast.Assign) and isinstance(n.value, ast.Call) and call_name(n.value) == "sympify" and src(n.value.args[0]) == "1" for n in walk_no_nested(m.node))
-    obs.append(Ob("F-indicator", f"{rp}::Atom.to_arithm::lagrange", rp, m.node.lineno, m.qualname, ok and prod_ok, why if ok and prod_ok or not ok else "factors are not multiplied up from 1"))
-    # value outside the type => indicator 0 ; requires normalised atom and finite type (raises otherwise)
-    c = cfg_of(m.node)
-    zero = [r for r in walk_no_nested(m.node) if isinstance(r, ast.Return) and isinstance(r.value, ast.Call) and call_name(r.value) == "sympify" and src(r.value.args[0]) == "0"]
-    okz = False
-    if zero:
-        tests = controlling_tests(c, node_for(c, zero[0]))
-        okz = any("not in" in src(t.ast) and "values" in src(t.ast) and reach is True for t, reach in tests)
-    obs.append(Ob("F-indicator", f"{rp}::Atom.to_arithm::outside-type", rp, zero[0].lineno if zero else m.node.lineno, m.qualname, okz,
-                  "a value outside the variable's type has indicator 0" if okz else "missing `value not in type -> 0` case"))
-    guards = [t for t, _ in c.raise_guards()]
-    okg = any("is_normalized" in src(t.ast) for t in guards) and any("Finite" in src(t.ast) for t in guards)
-    obs.append(Ob("F-indicator", f"{rp}::Atom.to_arithm::preconditions", rp, m.node.lineno, m.qualname, okg,
+    selfn = m.params()[0]
+    mdefs = Defs(m.node, selfn)
+    scopes = [(m, {}, None)] + helper_calls(repo, m, depth=1)
+
+    def field_of(name: str, g: FunctionInfo, gdefs: Defs, binding) -> Optional[str]:
+        e = resolve_alias(ast.Name(id=name, ctx=ast.Load()), gdefs)
+        if isinstance(e, ast.Name) and g is not m and e.id in binding:
+            e = resolve_alias(binding[e.id], mdefs)
+        for fld in ("poly1", "poly2"):
+            if is_self_attr(e, fld, selfn):
+                return fld
+        return None
+
+    # (a) Lagrange factor (x - v)/(c - v) over the other values v of the type, multiplied up
+    key = f"{rp}::Atom.to_arithm::lagrange"
+    verdict = None   # (ok, text, line)
+    for g, binding, _ in scopes:
+        gdefs = Defs(g.node, g.params()[0] if g.params() else None)
+        for cmpn in walk_no_nested(g.node):
+            if not (isinstance(cmpn, (ast.ListComp, ast.GeneratorExp)) and len(cmpn.generators) == 1 and isinstance(cmpn.generators[0].target, ast.Name)):
+                continue
+            gen = cmpn.generators[0]
+            v = gen.target.id
+            if not any(isinstance(x, ast.BinOp) and isinstance(x.op, ast.Div) for x in ast.walk(cmpn.elt)):
+                continue
+            names = sorted({x.id for x in ast.walk(cmpn.elt) if isinstance(x, ast.Name)} - {v})
+            if len(names) != 2:
+                continue
+            try:
+                got = Normalizer()(cmpn.elt)
+            except AnalysisError:
+                continue
+            match = None
+            for x, cst in ((names[0], names[1]), (names[1], names[0])):
+                if got.equiv(Normalizer()(ast.parse(f"({x} - {v}) / ({cst} - {v})").body[0].value)):
+                    match = (x, cst)
+            if match is None:
+                verdict = (False, f"factor `{src(cmpn.elt)}` is not (x - v)/(c - v)", cmpn.lineno)
+                break
+            x, cst = match
+            fx, fc = field_of(x, g, gdefs, binding), field_of(cst, g, gdefs, binding)
+            if fx is None or fc is None:
+                verdict = (None, f"factor `{src(cmpn.elt)}` found but `{x}`/`{cst}` could not be traced to the atom's sides", cmpn.lineno)
+                break
+            if (fx, fc) != ("poly1", "poly2"):
+                verdict = (False, f"factor `{src(cmpn.elt)}` interpolates in the constant instead of the variable (x is {fx}, c is {fc})", cmpn.lineno)
+                break
+            # filter: skip exactly v == c
+            filt = None
+            if len(gen.ifs) == 1 and isinstance(gen.ifs[0], ast.Compare) and len(gen.ifs[0].ops) == 1 and isinstance(gen.ifs[0].ops[0], ast.NotEq):
+                sides = {src(gen.ifs[0].left), src(gen.ifs[0].comparators[0])}
+                filt = True if sides == {v, cst} else False if sides == {v, x} else None
+            elif not gen.ifs:
+                filt = False
+            if filt is False:
+                verdict = (False, "the product over the values of the type does not skip exactly v == c", cmpn.lineno)
+                break
+            # consumer: a product
+            par = parent(cmpn)
+            prod = None
+            if isinstance(par, ast.Call) and call_name(par) in ("prod", "Mul"):
+                prod = True
+            elif isinstance(par, ast.Starred) and isinstance(parent(par), ast.Call) and call_name(parent(par)) == "Mul":
+                prod = True
+            elif isinstance(par, ast.Call) and call_name(par) in ("sum", "Add"):
+                prod = False
+            elif isinstance(par, ast.Assign) and isinstance(par.targets[0], ast.Name):
+                lst = par.targets[0].id
+                for loop in walk_no_nested(g.node):
+                    if isinstance(loop, ast.For) and src(loop.iter) == lst:
+                        for n in ast.walk(loop):
+                            if isinstance(n, ast.AugAssign):
+                                prod = isinstance(n.op, ast.Mult) if isinstance(n.op, (ast.Mult, ast.Add)) else prod
+                    if isinstance(loop, ast.Call) and call_name(loop) in ("prod", "Mul") and any(lst in src(a) for a in loop.args):
+                        prod = True
+            if prod is False:
+                verdict = (False, "the Lagrange factors are added instead of multiplied", cmpn.lineno)
+            elif filt is None or prod is None:
+                verdict = (None, "Lagrange factor recognised; " + ("filter" if filt is None else "product accumulation") + " not recognised", cmpn.lineno)
+            else:
+                verdict = (True, "indicator of `x == c` is the product over the other values v of (x - v)/(c - v)", cmpn.lineno)
+            break
+        if verdict is not None:
+            break
+    if verdict is None:
+        obs.append(inconclusive(R, key, rp, m.node.lineno, m.qualname, "no quotient-of-differences comprehension found in to_arithm or its helpers"))
+    elif verdict[0] is None:
+        obs.append(inconclusive(R, key, rp, verdict[2], m.qualname, verdict[1]))
+    else:
+        obs.append(Ob(R, key, rp, verdict[2], m.qualname, verdict[0], verdict[1]))
+
+    # (b) a constant outside the type has indicator 0
+    key = f"{rp}::Atom.to_arithm::outside-type"
+    state = None
+    member_tests = 0
+    for g, binding, _ in scopes:
+        c = cfg_of(g.node)
+        for n in walk_no_nested(g.node):
+            if isinstance(n, ast.Compare) and len(n.ops) == 1 and isinstance(n.ops[0], (ast.In, ast.NotIn)) and "values" in src(n.comparators[0]):
+                member_tests += 1
+        for e, facts, line in _returns_with_facts(g.node, c):
+            if not _is_const(e, 0):
+                continue
+            for t, truth in facts:
+                if isinstance(t, ast.Compare) and len(t.ops) == 1 and isinstance(t.ops[0], (ast.In, ast.NotIn)) and "values" in src(t.comparators[0]):
+                    outside = (isinstance(t.ops[0], ast.NotIn)) == truth
+                    state = (outside, line)
+    if state is not None:
+        obs.append(Ob(R, key, rp, state[1], m.qualname, state[0],
+                      "a value outside the variable's type has indicator 0" if state[0] else "indicator 0 is returned for values *inside* the type"))
+    elif member_tests == 0:
+        obs.append(Ob(R, key, rp, m.node.lineno, m.qualname, False, "missing `value not in type -> 0` case (no membership test of the constant in the type's values)"))
+    else:
+        obs.append(inconclusive(R, key, rp, m.node.lineno, m.qualname, "membership test present but the zero result was not recognised"))
+
+    # (c) refusals
+    guards = []
+    for g, _, _ in scopes:
+        guards += [src(t.ast) for t, _ in cfg_of(g.node).raise_guards()]
+    okg = any("is_normalized" in t for t in guards) and any("Finite" in t for t in guards)
+    obs.append(Ob(R, f"{rp}::Atom.to_arithm::preconditions", rp, m.node.lineno, m.qualname, okg,
                   "un-normalised atoms and non-finite variables are refused" if okg else "to_arithm no longer refuses un-normalised atoms / non-finite variables"))
-    # power reduction
+
+    # (d) power reduction: what is returned under which facts
     rp2 = "program/type/finite.py"
     f = repo.function(rp2, "Finite.reduce_power")
-    s = src(f.node)
+    fself = f.params()[0]
+    pw = f.params()[1]
+    fdefs = Defs(f.node, fself)
+    nz = _field_normalizer(f, fdefs)
+    want = nz(ast.parse(f"{pw} - len({fself}.values)").body[0].value)
     c2 = cfg_of(f.node)
-    rets = [r for r in walk_no_nested(f.node) if isinstance(r, ast.Return)]
-    okr = True
-    probs = []
-    for r in rets:
-        tests = controlling_tests(c2, node_for(c2, r))
-        ts = " & ".join(src(t.ast) + ("" if reach else "[F]") for t, reach in tests)
-        v = src(r.value)
-        if v == "1" and "power == 0" not in ts:
-            okr = False; probs.append("1 returned without power == 0")
-        if v == "self.variable" and "self.binary" not in ts:
-            okr = False; probs.append("x returned without the binary test")
-        if v == "self.variable ** power" and not re.search(r"power < len\(self\.values\)", ts):
-            okr = False; probs.append("x**power returned without power < |values|")
-    order = [src(r.value) for r in rets]
-    okr = okr and order[:3] == ["1", "self.variable", "self.variable ** power"] and "get_reduced_powers(self._ordered_values, power)" in s
-    obs.append(Ob("F-indicator", f"{rp2}::Finite.reduce_power::cases", rp2, f.node.lineno, f.qualname, okr,
-                  "x**0 = 1; binary: x**k = x; k < |values|: unchanged; else interpolation over the ordered values" if okr else "power reduction cases changed: " + "; ".join(probs or ["order / interpolation call"])))
+    key = f"{rp2}::Finite.reduce_power::cases"
+    problems, unknown, seen_cases = [], [], 0
+    for e, facts, line in _returns_with_facts(f.node, c2):
+        e = resolve_alias(e, fdefs)
+        kind = "one" if _is_const(e, 1) else "x" if is_self_attr(e, "variable", fself) else             "xp" if isinstance(e, ast.BinOp) and isinstance(e.op, ast.Pow) and is_self_attr(e.left, "variable", fself) and src(e.right) == pw else None
+        if kind is None:
+            continue
+        seen_cases += 1
+        canon = [(t, truth, cmp_canon(t, truth, nz)) for t, truth in facts]
+        opaque = [src(t) for t, truth, cn in canon if cn is None and not (isinstance(t, ast.Attribute))]
+        def pw_equals(k):
+            return any(cn is not None and cn[1] == "==" and (cn[0].equiv(nz(ast.parse(f"{pw} - {k}").body[0].value)) or cn[0].equiv(nz(ast.parse(f"{k} - {pw}").body[0].value))) for _, _, cn in canon)
+        if kind == "one":
+            if not pw_equals(0):
+                (unknown if opaque else problems).append(f"line {line}: 1 is returned without `{pw} == 0`")
+        elif kind == "x":
+            binary = any(isinstance(t, ast.Attribute) and t.attr == "binary" and truth for t, truth, _ in canon)
+            if not binary and not pw_equals(1):
+                (unknown if opaque else problems).append(f"line {line}: x is returned for x**{pw} without the binary test")
+        else:
+            good = rel = False
+            for _, _, cn in canon:
+                if cn is None or cn[1] not in ("<", "<="):
+                    continue
+                cst = (cn[0] - want)
+                k = cst.int_value()
+                if k is None:
+                    continue
+                rel = True
+                if (cn[1] == "<" and k >= 0) or (cn[1] == "<=" and k >= 1):
+                    good = True
+            if not good:
+                if rel:
+                    problems.append(f"line {line}: x**{pw} is returned unreduced although {pw} may equal the number of values")
+                else:
+                    unknown.append(f"line {line}: no comparison of {pw} with len(values) recognised")
+    if problems:
+        obs.append(Ob(R, key, rp2, f.node.lineno, f.qualname, False, "power reduction cases: " + "; ".join(problems)))
+    elif unknown or not seen_cases:
+        obs.append(inconclusive(R, key, rp2, f.node.lineno, f.qualname, "; ".join(unknown) or "no special-case returns recognised"))
+    else:
+        obs.append(Ob(R, key, rp2, f.node.lineno, f.qualname, True, "x**0 = 1; binary: x**k = x; k < |values|: unchanged; else interpolation"))
+
+    # (e) binary means: all values in {0, 1}
     b = repo.function(rp2, "Finite.__init__")
-    sb = src(b.node)
-    okb = re.search(r"self\.binary = len\(self\.values\) <= 2 and all\(\[?\(?v == 0 or v == 1", sb) is not None
-    obs.append(Ob("F-indicator", f"{rp2}::Finite.__init__::binary", rp2, b.node.lineno, b.qualname, okb,
-                  "binary means: at most two values, all in {0, 1}" if okb else "definition of `binary` changed (x**k = x holds only for values in {0,1})"))
-    # interpolation matrix: row i holds values**i, row 0 ones; reduced power = values**power . M^-1 . (t**p)
-    g = repo.function("utils/finite_power_reduction.py", "_get_powers_transform_matrix")
-    sg = src(g.node)
-    okm = "mat[i, j] = values[j] ** i" in sg and "return mat.inv()" in sg
-    h = repo.function("utils/finite_power_reduction.py", "get_reduced_powers")
-    sh = src(h.node)
-    okm = okm and "v ** power for v in values" in sh and "tmp_var ** p for p in range(len(values))" in sh and "values_vector.T * mat * var_vector" in sh
-    obs.append(Ob("F-indicator", "utils/finite_power_reduction.py::get_reduced_powers::vandermonde", g.relpath, g.node.lineno, h.qualname, okm,
-                  "x**power = (v_j**power)_j . V^-1 . (x**p)_p with V[i][j] = v_j**i" if okm else "Vandermonde interpolation of powers changed"))
+    key = f"{rp2}::Finite.__init__::binary"
+    bassign = next((n for n in walk_no_nested(b.node) if isinstance(n, ast.Assign) and is_self_attr(n.targets[0], "binary", b.params()[0])), None)
+    if bassign is None:
+        obs.append(inconclusive(R, key, rp2, b.node.lineno, b.qualname, "assignment of self.binary not found in __init__"))
+    else:
+        def zero_one_all(e):
+            if isinstance(e, ast.Call) and call_name(e) in ("all", "any") and e.args and isinstance(e.args[0], (ast.ListComp, ast.GeneratorExp)):
+                elt = e.args[0].elt
+                if isinstance(elt, ast.BoolOp) and isinstance(elt.op, ast.Or) and all(isinstance(x, ast.Compare) and isinstance(x.ops[0], ast.Eq) for x in elt.values):
+                    consts = sorted(src(x.comparators[0]) for x in elt.values)
+                    return call_name(e), consts
+                if isinstance(elt, ast.Compare) and len(elt.ops) == 1 and isinstance(elt.ops[0], ast.In):
+                    consts = sorted(src(x) for x in getattr(elt.comparators[0], "elts", []))
+                    return call_name(e), consts
+            return None
+        val = bassign.value
+        tops = val.values if isinstance(val, ast.BoolOp) else [val]
+        found = [(zero_one_all(t), t) for t in tops]
+        hit = next((z for z, _ in found if z is not None), None)
+        if hit is None:
+            obs.append(inconclusive(R, key, rp2, bassign.lineno, b.qualname, "definition of `binary` not recognised"))
+        else:
+            okb = hit[0] == "all" and hit[1] == ["0", "1"] and not (isinstance(val, ast.BoolOp) and isinstance(val.op, ast.Or))
+            obs.append(Ob(R, key, rp2, bassign.lineno, b.qualname, okb,
+                          "binary implies all values in {0, 1}" if okb else f"`binary` no longer implies that all values are in {{0,1}} (`{src(val)[:80]}`); x**k = x holds only then"))
+
+    # (f) Vandermonde interpolation: result = w . V^-1 . xs with V[i][j] = v_j**i (or the transposed arrangement)
+    rp3 = "utils/finite_power_reduction.py"
+    h = repo.function(rp3, "get_reduced_powers")
+    key = f"{rp3}::get_reduced_powers::vandermonde"
+    hscopes = [(h, {}, None)] + helper_calls(repo, h, depth=1)
+    orient = None     # "col": values indexed by the column index
+    inverted = False
+    for g, _, _ in hscopes:
+        for n in walk_no_nested(g.node):
+            if isinstance(n, ast.Call) and call_name(n) == "inv":
+                inverted = True
+            if isinstance(n, ast.Assign) and isinstance(n.targets[0], ast.Subscript) and isinstance(n.targets[0].slice, ast.Tuple) and len(n.targets[0].slice.elts) == 2:
+                ri, ci = [src(x) for x in n.targets[0].slice.elts]
+                for pe in ast.walk(n.value):
+                    if isinstance(pe, ast.BinOp) and isinstance(pe.op, ast.Pow) and isinstance(pe.left, ast.Subscript):
+                        vi, ei = src(pe.left.slice), src(pe.right)
+                        if (vi, ei) == (ci, ri):
+                            orient = "col"
+                        elif (vi, ei) == (ri, ci):
+                            orient = "row"
+                        else:
+                            orient = "bad"
+    hdefs = Defs(h.node, None)
+    prodexpr = None
+    for n in walk_no_nested(h.node):
+        if isinstance(n, ast.BinOp) and isinstance(n.op, ast.Mult) and isinstance(n.left, ast.BinOp) and isinstance(n.left.op, ast.Mult):
+            prodexpr = n
+    side = None
+    if prodexpr is not None:
+        def vec_kind(e):
+            if isinstance(e, ast.Attribute) and e.attr == "T":
+                e = e.value
+            e = resolve_alias(e, hdefs)
+            if isinstance(e, ast.Call) and e.args:
+                e = e.args[0]
+            if isinstance(e, (ast.ListComp, ast.GeneratorExp)):
+                it = e.generators[0].iter
+                return "powers-of-symbol" if isinstance(it, ast.Call) and call_name(it) == "range" else "values-to-power"
+            return None
+        lk, rk = vec_kind(prodexpr.left.left), vec_kind(prodexpr.right)
+        if lk and rk and lk != rk:
+            side = "left" if lk == "values-to-power" else "right"
+    if orient is None or side is None or not inverted:
+        obs.append(inconclusive(R, key, rp3, h.node.lineno, h.qualname, "Vandermonde matrix / product not recognised"))
+    else:
+        okm = orient != "bad" and ((orient == "col") == (side == "left"))
+        obs.append(Ob(R, key, rp3, h.node.lineno, h.qualname, okm,
+                      "x**power = (v_j**power)_j . V^-1 . (x**p)_p with V[i][j] = v_j**i" if okm else
+                      f"Vandermonde matrix is filled {orient}-wise but the vector of value powers multiplies from the {side}: the interpolation solves the transposed system"))
     return obs
 
 
